@@ -9,7 +9,7 @@ VERIF = os.path.dirname(os.path.dirname(os.path.abspath(__file__)))
 EXPECT = {  # seed directory -> harnesses expected to catch it
  "C01-server-drops-empty-identity": ["w2_server_login_start_unregistered_ids_ctx"],
  "C02-password-truncation-65533": ["s6_pwd_too_long"],
- "C02-login-password-trailing-whitespace-trimmed": ["s3_client_login_start_pw2", "w3_client_login_finish_default_ids"],
+ "C02-login-password-trailing-whitespace-trimmed": ["s3_client_login_start_pw2", "w3e_login_finish_early"],
  "C03-client-mac-truncated-verify": ["c03_server_finish_exact"],
  "C04-server-mac-truncated-verify": ["s10p_generate_ke3_ctx0_default_ids"],
  "C05-empty-identity-as-absent": ["s12_identifiers_defaulting"],
@@ -27,7 +27,7 @@ EXPECT = {  # seed directory -> harnesses expected to catch it
  "C13-setup-serialize-duplicates-static-key": ["d_setup"],
  "C14-credential-id-truncated-in-oprf-key": ["s7_oprf_key_from_seed_long_cred"],
  "C15-skip-default-ksf": ["s6_pwd_key_len3"],
- "C15-login-ignores-ksf-parameter": ["w3_client_login_finish_default_ids"],
+ "C15-login-ignores-ksf-parameter": ["w3e_login_finish_early"],
  "C16-deterministic-envelope-nonce-one-identity": ["s9w_seal_client_only"],
  "C17-fake-keypair-is-static-keypair": ["s5_server_setup_new"],
  "C17-ke1-nonce-overlaps-key-seed": ["s3_client_login_start_pw2"],
